@@ -19,7 +19,8 @@ EXPLANATION = (
     "abstract walk of run()'s loop shows that (a) a thread blocked in an untimed go.wait() is woken by stop(), and (b) "
     "from the return of every wait and from the top of every iteration the loop reaches `break` after at most one more "
     "chunk - so close() always returns. Every chunk of chunks(audio, size=chunk_size*channels) is written exactly once, "
-    "in order, unconditionally. Not decided: the bytes delivered under every interleaving of pause/play.")
+    "in order, unconditionally. Not decided: the bytes delivered under every interleaving of pause/play."
+    " Also: Without stop() no path leaves the chunk loop early (nothing lost); close() loops until the thread list is empty; __exit__/__del__ close. ")
 
 UNDECIDED = ["byte-exact delivery under all interleavings of control calls (needs schedule exploration)"]
 
